@@ -132,3 +132,54 @@ def check_global_counters(res: Result, lcs: List[LaunchCtx]):
         Finding("R-WORLD.4", f"{lc.name}|{a.root}|global-write", f"cross-world counter `{spec.flat}` is written non-atomically with a non-constant value `{show(a.value)}`", a.loc),
       )
   return n
+
+
+def check_device_conditions(res: Result, db: DB, entries) -> int:
+  """R-WORLD.6: the condition array of wp.capture_if / wp.capture_while is a single cell read by the device
+  (element 0 decides for the whole launch graph). It must therefore be a batch-wide scalar (shape (1,)), never an
+  array with one entry per world: otherwise world 0's value decides whether *every* world runs the guarded stages."""
+  from ..hostir import Field, Phi, Temp, root_array
+
+  n = 0
+  seen = set()
+  for entry in entries:
+    hi = db.trace(entry)
+    for ev in hi.events:
+      if ev.kind != "device_cond" or ev.src is None:
+        continue
+      alts = ev.src.alts if isinstance(ev.src, Phi) else [ev.src]
+      for alt in alts:
+        r = root_array(alt)
+        per_world = None
+        what = ""
+        if isinstance(r, Temp):
+          sh = r.shape.text if r.shape is not None else (r.src.text if r.src is not None else "")
+          what = f"{r.key} allocated with shape `{sh}`"
+          if "nworld" in sh:
+            per_world = True
+          elif sh.strip("()[], ") in ("1",):
+            per_world = False
+        elif isinstance(r, Field):
+          spec = db.sm.schema_by_path.get((r.owner, r.path))
+          if spec is not None and spec.is_array:
+            what = f"{r.owner}.{r.path} with dims {spec.dims}"
+            per_world = spec.first in ("nworld", "*")
+        else:
+          continue
+        key = f"{ev.loc.rsplit(':', 1)[0]}|{ev.name}|{getattr(r, 'key', getattr(r, 'text', '?'))}"
+        if key in seen:
+          continue
+        seen.add(key)
+        n += 1
+        res.ob(
+          per_world is not True,
+          key,
+          Finding(
+            "R-WORLD.6",
+            f"{ev.stack[-1] if ev.stack else '?'}|{ev.name}|per-world-condition",
+            f"{ev.name} is given a per-world condition array ({what}): the device reads only element 0, so world 0 decides whether the guarded stages run for every world in the batch",
+            ev.loc,
+          ),
+          sample={"site": ev.loc, "primitive": ev.name, "condition": what, "per_world": per_world},
+        )
+  return n
